@@ -527,6 +527,7 @@ func runDisputeHistory(t *testing.T, seed int64) (string, map[string]int, string
 						_, err := w.disputeMS.WithdrawFeeRefund(ctx, &disputetypes.MsgWithdrawFeeRefund{CallerAddress: w.accts[a].String(), PayerAddress: w.accts[a].String(), Id: d})
 						return err
 					})
+					nextParams = []*big.Int{new(big.Int).SetUint64(d)}
 					do("ClaimReward", a, nil, func(ctx sdk.Context) error {
 						_, err := w.disputeMS.ClaimReward(ctx, &disputetypes.MsgClaimReward{CallerAddress: w.accts[a].String(), DisputeId: d})
 						return err
